@@ -28,6 +28,11 @@ def demo(d):
 
 def main():
     name, props = sys.argv[1], sys.argv[2:]
+    import fcntl
+    os.makedirs(os.path.join(VERIF, ".cache"), exist_ok=True)
+    lockf = open(os.path.join(VERIF, ".cache", "repo.lock"), "a+")
+    fcntl.flock(lockf, fcntl.LOCK_EX)          # nobody else builds from /repo while the patch is applied
+    os.environ["VERIF_REPO_LOCK_HELD"] = "1"
     d = os.path.join(VERIF, "seeded", name)
     patch = os.path.join(d, "patch.diff")
     C.cargo_build()
